@@ -787,6 +787,39 @@ class VhdlScope:
 
         self._declarations = declarations
 
+        # Enumeration literals are written unchanged. They are declared together
+        # with their type and share the namespace of the other objects of the scope.
+        literal_names = set()
+
+        for decl in declarations.values():
+            obj = decl.obj
+
+            if isinstance(obj, type) and issubclass(
+                obj, (cohdl_enum.Enum, cohdl_enum.DynamicEnum)
+            ):
+                if issubclass(obj, cohdl_enum.Enum):
+                    enumerators = list(obj.__members__.keys())
+                else:
+                    enumerators = [member.name for member in obj.__members__]
+
+                lower_case = [enumerator.lower() for enumerator in enumerators]
+
+                assert len(set(lower_case)) == len(
+                    lower_case
+                ), f"the enumerators of {obj} are not unique (VHDL names are not case sensitive)"
+
+                for enumerator in enumerators:
+                    assert (
+                        self._valid_identifier(enumerator, None) == enumerator
+                    ), f"enumerator '{enumerator}' of {obj} is not a valid VHDL identifier"
+                    assert (
+                        enumerator.lower() not in used_names
+                    ), f"enumerator '{enumerator}' of {obj} is a reserved word or the name of another object"
+
+                literal_names.update(lower_case)
+
+        used_names |= literal_names
+
         for id, decl in declarations.items():
             obj = decl.obj
 
